@@ -61,13 +61,13 @@ def sim_uuid4():
     sim = CURRENT
     if sim is None:
         _uuid_fallback[0] += 1
-        return _FakeUUID((0xF << 124) | _uuid_fallback[0])
+        return uuid.UUID(int=(0xF << 124) | _uuid_fallback[0], version=4)
     sim.uuid_counter = getattr(sim, "uuid_counter", 0) + 1
     # deterministic per run, distinct within a run, looks random enough for containment checks
     from .source import splitmix64
     hi = splitmix64(sim.uuid_counter * 2 + 1)
     lo = splitmix64(sim.uuid_counter * 2 + 2)
-    return _FakeUUID(((hi << 64) | lo) | (1 << 127))
+    return uuid.UUID(int=((hi << 64) | lo) & ((1 << 128) - 1), version=4)  # a real UUID object, seeded
 
 
 def haiway_src() -> str:
